@@ -94,3 +94,6 @@ pub mod net;
 )]
 #[cfg(feature = "syscall")]
 pub mod syscall;
+
+#[cfg(feature = "verif-hooks")]
+pub mod verif;
